@@ -12,6 +12,7 @@ import z3
 
 from props.base import Job, T1, T2, T4, T5, T6
 from props import tree_jobs as TJ
+from props import agg_jobs as AJ
 from props import ctor_jobs as CJ
 from pyvc import interp as I
 from pyvc.interp import Ctx
@@ -179,7 +180,7 @@ def job_noise_shape(E, rep, tier):
 def jobs(tier):
     P = 'C04'
     return [TJ.job_split_algebra(P, ('law',)), TJ.make(P, 'split_exact', False), Job('levy-area', job_levy),
-            Job('seed-lemmas', job_seed_lemmas), Job('key-injective', job_key_injective), Job('noise-shape', job_noise_shape), CJ.job_constructor(P)]
+            Job('seed-lemmas', job_seed_lemmas), Job('key-injective', job_key_injective), Job('noise-shape', job_noise_shape), CJ.job_constructor(P), AJ.job_aggregation(P)]
 
 
 def canaries(tier):
